@@ -124,11 +124,11 @@ Misc == { [k |-> "describe"], [k |-> "unknown"] }
 AllMs == {"prod", "prodh", "exch", "exchh"}
 OneLog == { <<>>, << <<"INFO", "m1">> >> }
 
-QuickCalls == UnaryCalls(1, {"", "ERROR", "INFO"})
+QuickCalls == UnaryCalls(1, {"", "EXCEPTION", "ERROR", "INFO"})
               \cup StreamOK({"prod", "exchh"}, 1, {0, 2}, {"eq", "bad"}, OneLog)
               \cup StreamOK({"prodh", "exch"}, 0, {1, 3}, {"castable"}, {<<>>})
               \cup StreamBad(AllMs, {0, 2}) \cup Garbage \cup Misc
-FullCalls == UnaryCalls(2, {"", "ERROR", "INFO", "TRACE"})
+FullCalls == UnaryCalls(2, {"", "EXCEPTION", "ERROR", "WARN", "INFO", "DEBUG", "TRACE"})
              \cup StreamOK(AllMs, 2, {0, 1, 2, 3}, {"eq", "castable", "bad"}, OneLog)
              \cup StreamBad(AllMs, {0, 1, 3}) \cup Garbage \cup Misc
 \* probes: what comes after a call; one of each framing shape
